@@ -78,7 +78,7 @@ func runC09(c *Ctx) {
 	for i := 0; i < n; i++ {
 		r := rng.Fork()
 		cid := fmt.Sprintf("c09-%d", i)
-		o := ATGenOpts{NullableVals: r.Chance(40), CollideKeys: r.Chance(25), BigInts: r.Chance(15)}
+		o := ATGenOpts{NullableVals: r.Chance(40), CollideKeys: r.Chance(25), BigInts: r.Chance(15), Upserts: r.Chance(25)}
 		cs := genATCase(r, w, cid, o)
 		cs.Validate = true
 		if len(cs.Rows) < 2 {
